@@ -116,16 +116,20 @@ PartOK(f, part, bits) ==
     [] f.kind = "enum" -> part = <<Present(f, bits).name>>
     [] f.kind = "optenum" /\ Present(f, bits).k = "ok" -> part = <<"Ok(" \o Present(f, bits).name \o ")">>
     [] OTHER -> TRUE
+(* evaluated as ONE boolean value (`= TRUE`): TLC explores disjunctions that appear at action level as alternative
+   successors, which would multiply identical successor states (2^fields for the per-field disjunction below) *)
+DebugOK ==
+  /\ Len(Ev.parts) = Len(decl.fields)
+  /\ Len(Ev.plain) = Len(decl.fields)
+  (* a raw identifier (r#type) may be rendered as written (stringify!) or without the r# (as derive(Debug) does):
+     the property says "by name" and both are the field's name *)
+  /\ \/ Ev.lines = ComposeLines(decl.name, [k \in 1..Len(decl.fields) |-> decl.fields[k].name], Ev.parts, Ev.alt)
+     \/ Ev.lines = ComposeLines(decl.name, [k \in 1..Len(decl.fields) |-> Ev.plain[k]], Ev.parts, Ev.alt)
+  /\ \A k \in 1..Len(decl.fields) :
+        (Len(Ev.parts[k]) = 1 \/ Ev.alt) /\
+        (~Ev.alt => PartOK(decl.fields[k], Ev.parts[k], Read(obj[Ev.slot], Pos(decl.fields[k], 0))))
 TDebug == /\ Ev.ev = "debug" /\ ~Ev.panic
-          /\ Len(Ev.parts) = Len(decl.fields)
-          (* a raw identifier (r#type) may be rendered as written (stringify!) or without the r# (as derive(Debug) does):
-             the property says "by name" and both are the field's name *)
-          /\ \/ Ev.lines = ComposeLines(decl.name, [k \in 1..Len(decl.fields) |-> decl.fields[k].name], Ev.parts, Ev.alt)
-             \/ Ev.lines = ComposeLines(decl.name, [k \in 1..Len(decl.fields) |-> Ev.plain[k]], Ev.parts, Ev.alt)
-          /\ Len(Ev.plain) = Len(decl.fields)
-          /\ \A k \in 1..Len(decl.fields) :
-                (Len(Ev.parts[k]) = 1 \/ Ev.alt) /\
-                (~Ev.alt => PartOK(decl.fields[k], Ev.parts[k], Read(obj[Ev.slot], Pos(decl.fields[k], 0))))
+          /\ DebugOK = TRUE
           /\ UNCHANGED <<decl, obj, shadow>> /\ out' = Obs("debug", {})
 
 TNext == /\ l <= Len(Rec)
